@@ -20,7 +20,7 @@ EXPLANATION = (
     "Interpreter::interpret (in rusty_basic and the value crates it calls) are each audited, and the "
     "implicit ones (bounds check of an index expression, zero check of integer / and %) are proved from "
     "their dominating comparisons or audited; (R7) the error path of the fetch-execute loop unwinds the "
-    "context states a failing statement had opened (shared with C05.R6).")
+    "context states a failing statement had opened (shared with C05.R6); (R11) after every user block the next emitted instruction is preceded by a resume point (shared with C05.R2): RESUME NEXT after the last statement of the main module must not run into a subprogram body.")
 NOT_DECIDED = ["panic-freedom in general (arithmetic overflow in the debug profile, stack depth, panics inside std)"]
 
 PCL = labels.PCL
@@ -535,5 +535,7 @@ def run(ctx):
     common.r_stack_discipline(ctx, "C08.R8")
     r9_string_growth_is_bounded(ctx)
     r10_child_helper_on_own_node(ctx)
+    # a resume point recorded at the wrong place lets RESUME NEXT run into code that was never called
+    c05.r2_mark_after_block(ctx, "C08.R11")
     from . import panics
     panics.r_audit(ctx, "C08.R6", scope="backend")
